@@ -397,6 +397,73 @@ func pbSize(it *Interp, a []Value) Value {
 // RegexpV is a natively compiled regular expression (patterns and subjects are concrete).
 type RegexpV struct{ Re *regexp.Regexp }
 
+// concDigest renders a concrete value (through pointers) canonically; false when any part of it is symbolic or opaque.
+func (it *Interp) concDigest(sb *strings.Builder, v Value, depth int) bool {
+	if depth > 12 {
+		return false
+	}
+	switch x := v.(type) {
+	case nil:
+		sb.WriteString("nil;")
+	case bool:
+		fmt.Fprintf(sb, "b%v;", x)
+	case *big.Int:
+		fmt.Fprintf(sb, "i%s;", x.String())
+	case string:
+		if strings.Contains(x, symStrMark) {
+			return false
+		}
+		fmt.Fprintf(sb, "s%q;", x)
+	case *Ptr:
+		if x == nil {
+			sb.WriteString("nilptr;")
+			return true
+		}
+		sb.WriteString("&")
+		return it.concDigest(sb, it.load(x), depth+1)
+	case *BigV:
+		return it.concDigest(sb, x.V, depth+1)
+	case *StructV:
+		sb.WriteString("{")
+		for _, f := range x.Fields {
+			if !it.concDigest(sb, f, depth+1) {
+				return false
+			}
+		}
+		sb.WriteString("}")
+	case *ArrayV:
+		sb.WriteString("[")
+		for _, e := range x.Elems {
+			if !it.concDigest(sb, e, depth+1) {
+				return false
+			}
+		}
+		sb.WriteString("]")
+	case *SliceV:
+		if x == nil || x.Arr == nil {
+			sb.WriteString("nilslice;")
+			return true
+		}
+		sb.WriteString("<")
+		for _, e := range x.Arr.V.(*ArrayV).Elems[x.Off : x.Off+x.Len] {
+			if !it.concDigest(sb, e, depth+1) {
+				return false
+			}
+		}
+		sb.WriteString(">")
+	case *IfaceV:
+		if x == nil {
+			sb.WriteString("niliface;")
+			return true
+		}
+		fmt.Fprintf(sb, "(%s)", x.T.String())
+		return it.concDigest(sb, x.V, depth+1)
+	default:
+		return false
+	}
+	return true
+}
+
 func registerCrypto(P *Program) {
 	const gc = "github.com/ethereum/go-ethereum/crypto."
 	keccak := func(it *Interp, a []Value) []byte {
@@ -413,7 +480,18 @@ func registerCrypto(P *Program) {
 		return h.Sum(nil)
 	}
 	// transaction hashing (RLP + keccak) is outside every claim: a fixed value, documented as uninterpreted
+	// A fully concrete transaction gets a digest of its content instead (not the Ethereum hash: harnesses only compare hashes
+	// with each other), so that distinct transactions have distinct hashes and equal ones equal hashes.
 	P.reg("(*github.com/ethereum/go-ethereum/core/types.Transaction).Hash", func(it *Interp, a []Value) Value {
+		if p, ok := a[0].(*Ptr); ok && p != nil {
+			if st, ok := it.load(p).(*StructV); ok && len(st.Fields) > 0 {
+				var sb strings.Builder
+				if it.concDigest(&sb, st.Fields[0], 0) {
+					h := sha256.Sum256([]byte(sb.String()))
+					return it.mkByteArray(h[:])
+				}
+			}
+		}
 		return it.mkByteArray(make([]byte, 32))
 	})
 	// JSON rendering of call arguments for gas estimation: content irrelevant to every claim
